@@ -1000,6 +1000,14 @@ Proof.
     destruct (announce_loop c s h self peers) as [s' d]. cbn [fst snd] in *. symmetry. exact E.
 Qed.
 
+Lemma cap_clause_nil c s h :
+  (1 <= c_max c -> cap_inv c (conns s)) ->
+  (c_max c <? 1) || (count h (conns s) + Z.of_nat (length (@nil N)) <=? c_max c) = true.
+Proof.
+  intros Hcap. destruct (Z.ltb_spec (c_max c) 1) as [Hm|Hm]; [reflexivity|]. cbn [orb length].
+  apply Z.leb_le. specialize (Hcap Hm h). lia.
+Qed.
+
 Lemma clause_ok_step : forall c s o,
   (1 <= c_max c -> cap_inv c (conns s)) -> clause_ok c s o (snd (step c s o)) = true.
 Proof.
@@ -1015,9 +1023,8 @@ Proof.
     destruct (lookup (h, p) (conns s)) as [[|c']|] eqn:L; cbn [snd]; reflexivity.
   - unfold blacklist. destruct (c_nobl c) eqn:Hn; cbn [snd]; [reflexivity|].
     destruct (blacklisted s (h, p)) eqn:Hb; cbn [snd]; reflexivity.
-  - destruct (negb known); [cbn; destruct (c_max c <? 1); [reflexivity|]; cbn; apply Z.leb_le; rewrite Z.add_0_r;
-                            destruct (Z.ltb_spec (c_max c) 1); [discriminate|]; apply Hcap; lia|].
-    destruct complete; [cbn; destruct (Z.ltb_spec (c_max c) 1); [reflexivity|]; cbn; apply Z.leb_le; rewrite Z.add_0_r; apply Hcap; lia|].
+  - destruct (negb known); [cbn [snd nodupN forallb andb]; apply cap_clause_nil; exact Hcap|].
+    destruct complete; [cbn [snd nodupN forallb andb]; apply cap_clause_nil; exact Hcap|].
     pose proof (announce_loop_dials c s h self peers) as D.
     pose proof (announce_loop_nodup c s h self peers) as ND.
     pose proof (announce_loop_state c s h self peers) as ST.
